@@ -2162,6 +2162,10 @@ impl<'a> Env<'a> {
                         let a = st.stack.split_off(n - 4);
                         st.stack.clear();
                         let (adx, ady, bchar, achar) = (a[0], a[1], a[2], a[3]);
+                        // the components are nested charstrings: they count towards the nesting limit like subroutines
+                        if depth >= MAX_NEST {
+                            return Err("nesting limit".into());
+                        }
                         let bg = (self.seac_gid)(bchar as u8).ok_or("seac base code")?;
                         let ag = (self.seac_gid)(achar as u8).ok_or("seac accent code")?;
                         if st.open {
